@@ -246,7 +246,7 @@ Definition suffixb (e n : list (list N)) : bool := prefixb (rev e) (rev n).
 Definition spec_domain (es : list (list (list N))) (nl : list (list N)) : bool :=
   existsb (fun e => suffixb e nl) es.
 
-Definition entry_matches (re_match : list N -> list N -> bool) (n : list N) (e : entry) : bool :=
+Definition dm_entry_matches (re_match : list N -> list N -> bool) (n : list N) (e : entry) : bool :=
   match e with
   | EFull d => list_eqb n d
   | EDomain ls => if is_nil ls then true
@@ -254,7 +254,7 @@ Definition entry_matches (re_match : list N -> list N -> bool) (n : list N) (e :
   | ERegexp x => match to_readable n with Ok t => re_match x t | _ => false end
   end.
 Definition spec_mix (re_match : list N -> list N -> bool) (es : list entry) (n : list N) : bool :=
-  existsb (entry_matches re_match n) es.
+  existsb (dm_entry_matches re_match n) es.
 
 (* the entries a rule list denotes (rejected rules denote nothing) *)
 Fixpoint entries_of (re_valid : list N -> bool) (rules : list (list N)) : list entry :=
